@@ -435,6 +435,10 @@ func (eng *Engine) replay(ob *Obligation) *replayResult {
 	}
 	pl := &replayPlan{ex: ex, fi: ex.fn, rets: ob.cases, testPkg: ex.fn.Pkg.Types}
 	sig := ex.fn.Sig
+	if sig.TypeParams() != nil && sig.TypeParams().Len() > 0 || sig.RecvTypeParams() != nil && sig.RecvTypeParams().Len() > 0 {
+		res.Detail = "generic functions are not replayed by the generic driver"
+		return res
+	}
 	// roots: receiver and parameters, in order
 	var roots []*types.Var
 	if sig.Recv() != nil {
